@@ -9,9 +9,13 @@ workload / queue part at statement level).
     generates seeded random well-formed programs much longer than TLC's bound.
  3. TLC validates the traces with spec/StmtTrace.tla: C13_* / C14_* are evaluated on the REAL logged
     projections only (verdicts), D_* compare the model's prediction with the real state (drift).
+
+A violation's signature is "<predicate> [<risk features seen in the program prefix>]" plus, for the
+rollback / discard predicates, " diff=<kinds of fields that were not restored>".
 """
 import json
 import os
+import random
 import re
 
 import vlib
@@ -56,6 +60,15 @@ SCN_FRAC = scenario(
           "p4": pod("j2", "frac", 500, "Running", "n1", ["g1"])},
     groups=["g1", "g2", "g3"])
 
+# C: two sharers on one GPU + a really terminating pod + a pending whole-GPU pod (thorough tier)
+SCN_SHARE = scenario(
+    nodes={"n1": dict(gpu=2, cpu=4000), "n2": dict(gpu=2, cpu=4000)},
+    queues=QUEUES,
+    jobs={"j1": dict(queue="q1", np=0, min=1), "j2": dict(queue="q2", np=1, min=1), "j3": dict(queue="q1", np=0, min=1)},
+    pods={"p1": pod("j1", "frac", 500, "Running", "n1", ["g1"], frac=250), "p2": pod("j2", "frac", 500, "Running", "n1", ["g1"]),
+          "p3": pod("j3", "whole", 1000), "p4": pod("j3", "whole", 1000, "Releasing", "n2"), "p5": pod("j1", "frac", 500)},
+    groups=["g1", "g2", "g3"])
+
 
 def tla(v):
     """python value -> TLA+ expression"""
@@ -84,9 +97,15 @@ ACTION_PROPS = {"C13_Rollback", "C13_Discard"}
 
 
 # ------------------------------------------------------------------------------------------------
-# stage pieces
+# model checking and export of behaviours
 # ------------------------------------------------------------------------------------------------
-def model_check(ctx, name, scn, bounds, prefixes, workers=None, timeout=1500):
+def short_label(txt):
+    m = dict(re.findall(r"(\w+) \|-> (\"[^\"]*\"|<<[^>]*>>|\w+)", txt))
+    return "%s(%s)" % (m.get("n", "?").strip('"'),
+                       ",".join(v.strip('"') for k, v in m.items() if k != "n" and v not in ('""', "<<>>", "0", "FALSE", "TRUE")))
+
+
+def model_check(ctx, name, scn, bounds, prefixes, workers=None, timeout=2400, heap="6g"):
     """exhaustive TLC run of Stmt on one scenario: design check. A counterexample here is only a
     prediction (returned as list of violated names); the real code is judged by the traces."""
     d = vlib.prepare_spec_dir(ctx, "mc-" + name)
@@ -99,11 +118,11 @@ def model_check(ctx, name, scn, bounds, prefixes, workers=None, timeout=1500):
     # explored completely at least once and every predicted violation is known.
     while True:
         mod, cfg = vlib.write_model(d, MODULE, "Stmt_mc", consts, spec="Spec", invariants=invs, properties=props, view="view")
-        r = vlib.tlc(ctx, d, mod, cfg, workers=workers or min(vlib.NCPU, 8), timeout=timeout, heap="6g")
+        r = vlib.tlc(ctx, d, mod, cfg, workers=workers or min(vlib.NCPU, 8), timeout=timeout, heap=heap)
         if r.ok:
             ctx.add_tlc(r)
             ctx.stage("model-check-" + name, distinct=r.distinct, generated=r.generated, depth=r.depth, wall=round(r.wall, 1),
-                      checked=invs + props, predicted_violations=predicted)
+                      bounds=bounds, checked=invs + props, predicted_violations=predicted)
             return predicted
         if r.violated in invs:
             invs.remove(r.violated)
@@ -115,35 +134,6 @@ def model_check(ctx, name, scn, bounds, prefixes, workers=None, timeout=1500):
         predicted.append(r.violated)
         vlib.log("model-level counterexample for %s on %s (prediction only, %d states): %s" % (
             r.violated, name, len(r.trace_states), " ; ".join(short_label(x) for x in labels)[:1500]))
-
-
-def short_label(txt):
-    m = dict(re.findall(r"(\w+) \|-> (\"[^\"]*\"|<<[^>]*>>|\w+)", txt))
-    return "%s(%s)" % (m.get("n", "?").strip('"'), ",".join(v.strip('"') for k, v in m.items() if k != "n" and v not in ('""', "<<>>", "0", "FALSE", "TRUE")))
-
-
-def export_paths(ctx, name, scn, bounds, timeout=1500):
-    """every transition of the state graph as a labelled path from Init (BFS tree path + the edge)."""
-    d = vlib.prepare_spec_dir(ctx, "gen-" + name)
-    consts = dict(bounds, Cfg=tla(scn))
-    mod, cfg = vlib.write_model(d, MODULE, "Stmt_gen", consts, spec="Spec", action_constraints=["PathOut"], view="view")
-    r = vlib.tlc(ctx, d, mod, cfg, workers=1, timeout=timeout, heap="6g")
-    if not r.ok:
-        raise vlib.Infra("path export failed on %s:\n%s" % (name, vlib.tail_errors(r.out)))
-    paths = set()
-    for line in r.out.splitlines():
-        if line.startswith('"PATH '):
-            labels = json.loads(json.loads(line)[5:])
-            paths.add(tuple(json.dumps(compact(l), sort_keys=True) for l in labels))
-    if not paths:
-        raise vlib.Infra("TLC exported no paths for %s" % name)
-    prefixes = set()
-    for p in paths:
-        for k in range(1, len(p)):
-            prefixes.add(p[:k])
-    leaves = sorted(p for p in paths if p not in prefixes)
-    ctx.stage("export-" + name, transitions=len(paths), maximal_paths=len(leaves), distinct=r.distinct, wall=round(r.wall, 1))
-    return len(paths), leaves
 
 
 def compact(l):
@@ -162,6 +152,30 @@ def compact(l):
     return out
 
 
+def export_paths(ctx, name, scn, bounds, timeout=2400, heap="6g"):
+    """every transition of the state graph as a labelled path from Init (BFS tree path + the edge)."""
+    d = vlib.prepare_spec_dir(ctx, "gen-" + name)
+    consts = dict(bounds, Cfg=tla(scn))
+    mod, cfg = vlib.write_model(d, MODULE, "Stmt_gen", consts, spec="Spec", action_constraints=["PathOut"], view="view")
+    r = vlib.tlc(ctx, d, mod, cfg, workers=1, timeout=timeout, heap=heap)
+    if not r.ok:
+        raise vlib.Infra("path export failed on %s:\n%s" % (name, vlib.tail_errors(r.out)))
+    paths = set()
+    for line in r.out.splitlines():
+        if line.startswith('"PATH '):
+            labels = json.loads(json.loads(line)[5:])
+            paths.add(tuple(json.dumps(compact(l), sort_keys=True) for l in labels))
+    if not paths:
+        raise vlib.Infra("TLC exported no paths for %s" % name)
+    prefixes = set()
+    for p in paths:
+        for k in range(1, len(p)):
+            prefixes.add(p[:k])
+    leaves = sorted(p for p in paths if p not in prefixes)
+    ctx.stage("export-" + name, transitions=len(paths), maximal_paths=len(leaves), distinct=r.distinct, wall=round(r.wall, 1))
+    return len(paths), leaves
+
+
 def replay_paths(ctx, binary, name, scn, leaves):
     cfgp = os.path.join(ctx.scratch, "cfg-%s.json" % name)
     with open(cfgp, "w") as f:
@@ -177,8 +191,9 @@ def replay_paths(ctx, binary, name, scn, leaves):
 
 
 # ------------------------------------------------------------------------------------------------
-# trace validation (own driver: one TLC run with -continue reports every violating scenario; the
-# signature of a violation names the risky features seen in the trace prefix that led to it)
+# trace validation (own driver: the C13_/C14_ predicates are evaluated by TLC in every state of every
+# scenario and reported as VIOL lines, so that one genuine defect that shows in hundreds of programs
+# costs one TLC run; the signature of a violation names what led to it)
 # ------------------------------------------------------------------------------------------------
 TV_CONSTS = dict(Cfg="0", MaxOps="0", MaxFail="0", MaxStmts="0")
 
@@ -192,16 +207,60 @@ def features(prefix):
         if e["ev"] == "Call" and e["op"] == "Pipeline" and state is not None:
             on = state["nodes"].get(e["node"], {}).get("pods", {}).get(e["p"], {})
             if cfg.get("pods", {}).get(e["p"], {}).get("kind") == "frac" and on.get("st", "none") != "none" and on.get("groups") != e["g"]:
-                f.add("movegpu")
-        if e["ev"] == "Call" and e["op"] == "Pipeline" and cfg.get("pods", {}).get(e["p"], {}).get("kind") == "frac":
-            f.add("fracpipe")
+                f.add("movegpu")          # an evicted shared pod re-nominated onto another GPU of its node (finding F14)
         if e["ev"] == "Call" and e["op"] == "Convert":
             f.add("convert")
         if e["ev"] == "Cache" and e["ok"] == 0:
-            f.add(e["c"] + "fail")
+            f.add(e["c"] + "fail")        # bindfail / evictfail
         if "state" in e:
             state = e["state"]
+            for nd in state["nodes"].values():
+                if any(v["st"] == "Pipelined" for v in nd["pods"].values()) and any(x != 0 for x in nd["um"].values()):
+                    f.add("pipeonshared")  # a nominated pod on a node that has shared GPUs (finding F23)
     return sorted(f)
+
+
+def _flat(d, pre=""):
+    out = {}
+    if isinstance(d, dict):
+        for k, v in d.items():
+            out.update(_flat(v, pre + "." + k if pre else k))
+    else:
+        out[pre] = json.dumps(d)
+    return out
+
+
+def diff_classes(prefix):
+    """for a prefix that ends with Rollback / Discard: which kinds of fields differ between the real state logged
+    after it and the real state logged at the checkpoint (names of nodes / pods / workloads / queues removed)."""
+    cps = {0: prefix[0]["state"]}
+    last, ref = None, None
+    for e in prefix[1:]:
+        if e["ev"] != "Call":
+            continue
+        last = e
+        if e["op"] in ("Discard", "CommitEnd"):
+            ref = cps.get(0)
+            cps = {0: e["state"]}
+        elif e["op"] == "Rollback":
+            ref = cps.get(e["cp"])
+        else:
+            ref = None
+            cps[e["cp"] if e["op"] == "Checkpoint" else len(e["ops"])] = e["state"]
+    if last is None or last["op"] not in ("Rollback", "Discard") or ref is None:
+        return []
+    a, b = _flat(ref), _flat(last["state"])
+    out = set()
+    for k in a:
+        if a[k] == b.get(k):
+            continue
+        parts = k.split(".")
+        if parts[0] == "pods" and parts[-1] == "groups":
+            stk = ".".join(parts[:-1] + ["st"])
+            if json.loads(a[stk]) == "Pending" and json.loads(b.get(stk, '""')) == "Pending":
+                continue
+        out.add(".".join([parts[0]] + [x for x in parts[2:] if not re.fullmatch(r"[pgnjqd]\d+", x)]))
+    return sorted(out)
 
 
 def program_of(events):
@@ -210,10 +269,8 @@ def program_of(events):
     for e in events[1:]:
         if e["ev"] == "Call":
             op = e["op"]
-            if op == "CommitEnd":
-                prog.append({"n": "CommitEnd"})
-            elif op == "CommitBegin":
-                prog.append({"n": "CommitBegin"})
+            if op in ("CommitEnd", "CommitBegin"):
+                prog.append({"n": op})
             else:
                 prog.append(compact({"n": op, "p": e["p"], "node": e["node"], "j": e["j"], "g": e["g"], "upd": e["upd"] == 1, "cp": e["cp"]}))
         elif e["ev"] == "Cache":
@@ -242,7 +299,7 @@ def describe(events, limit=40):
     return "; ".join(out)
 
 
-def validate(ctx, trace_path, prefixes, label, timeout=3000, heap="8g", max_reports=60):
+def validate(ctx, trace_path, prefixes, label, timeout=3000, heap="8g", per_signature=3):
     events = vlib.read_ndjson(trace_path)
     spans = vlib.scenario_index(events)
     if not spans:
@@ -250,52 +307,55 @@ def validate(ctx, trace_path, prefixes, label, timeout=3000, heap="8g", max_repo
     own = [n for pre in prefixes for n in vlib.spec_defs(TRACE, pre)]
     drift = vlib.spec_defs(TRACE, "D_")
     stop = "all" if len(prefixes) > 1 else prefixes[0].rstrip("_")
+    spec_txt = open(os.path.join(vlib.SPEC, TRACE + ".tla")).read()
+    missing = [n for n in own if 'Viol("%s"' % n not in spec_txt]
+    if missing or not own:
+        raise vlib.Infra("StmtTrace!Report does not evaluate %s" % (missing or prefixes))
     d = vlib.prepare_spec_dir(ctx, "tv-" + label)
     os.symlink(os.path.abspath(trace_path), os.path.join(d, "trace.ndjson"))
     mod, cfg = vlib.write_model(d, TRACE, TRACE + "_tv", dict(TV_CONSTS, StopOn=json.dumps(stop)), spec="TraceSpec",
                                 invariants=drift, constraints=["Report"])
     r = vlib.tlc(ctx, d, mod, cfg, workers=min(vlib.NCPU, 8), timeout=timeout, heap=heap)
-    out = r.out
     found = []
-    for m in re.finditer(r'^<<"VIOL", "(\w+)", (\d+), (\d+)>>$', out, re.M):
-        found.append((m.group(1), int(m.group(2)), int(m.group(3)), "", ""))
-    reported = {n for n in re.findall(r'Viol\("(\w+)"', open(os.path.join(vlib.SPEC, TRACE + ".tla")).read())}
-    missing = [n for n in own if n not in reported]
-    if missing:
-        raise vlib.Infra("StmtTrace!Report does not evaluate %s" % missing)
+    for m in re.finditer(r'^<<"VIOL", "(\w+)", (\d+), (\d+)>>$', r.out, re.M):
+        found.append((m.group(1), int(m.group(2)), int(m.group(3)), ""))
     if not r.ok:
         if r.violated in drift and r.trace_states:
             l0 = re.search(r"^/\\ l0 = (\d+)", r.trace_states[0], re.M)
             ln = re.search(r"^/\\ l = (\d+)", r.trace_states[-1], re.M)
             dm = re.search(r'^/\\ dmsg = "(.*)"', r.trace_states[-1], re.M)
-            found.append((r.violated, int(l0.group(1)), int(ln.group(1)), dm.group(1) if dm else "", ""))
+            found.append((r.violated, int(l0.group(1)), int(ln.group(1)), dm.group(1) if dm else ""))
         else:
-            raise vlib.Infra("TLC failed on trace validation %s:\n%s" % (label, vlib.tail_errors(out)))
+            raise vlib.Infra("TLC failed on trace validation %s:\n%s" % (label, vlib.tail_errors(r.out)))
     by_start = {s: e for (s, e) in spans}
     nviol = 0
     drifts = []
-    for name, l0, ln, dmsg, last in found:
+    viol = {}
+    for name, l0, ln, dmsg in found:
         scen = events[l0 - 1:by_start[l0]]
         prefix = events[l0 - 1:ln - 1]
-        if name.startswith("C") and name not in own:
-            continue            # judged by the other property's check
         if name in own:
             nviol += 1
-            if nviol > max_reports:
-                continue
-            feats = features(prefix)
-            sig = "%s [%s]" % (name, ",".join(feats))
-            text = "TLC: invariant %s is FALSE on the real observation after step %d of program %s (%s)\nprogram prefix: %s" % (
-                name, len(prefix) - 1, scen[0].get("id"), scen[0].get("class"), describe(prefix))
-            ctx.violation(sig, text, {"module": TRACE, "invariant": name, "at_event": len(prefix), "cfg": scen[0]["cfg"],
-                                      "prog": program_of(scen), "observed": prefix[-1].get("state") if len(prefix) > 1 else None})
-        else:
+            sig = "%s [%s]" % (name, ",".join(features(prefix)))
+            if name in ("C13_RollbackObs", "C13_DiscardObs"):
+                sig += " diff=" + ",".join(diff_classes(prefix))
+            viol.setdefault(sig, []).append((len(prefix), name, scen, prefix))
+        elif name.startswith("D_"):
             drifts.append("%s at step %d of program %s%s\nprogram prefix: %s" % (
                 name, len(prefix) - 1, scen[0].get("id"), (" (" + dmsg + ")") if dmsg else "", describe(prefix)))
+        # else: a predicate of the other property (judged by that property's check)
+    for sig in sorted(viol):          # per signature: the shortest programs first, a few of each
+        cases = sorted(viol[sig], key=lambda c: c[0])
+        for (n, name, scen, prefix) in cases[:per_signature]:
+            text = ("TLC: %s is FALSE on the real observation after step %d of program %s (%s); %d program(s) with this signature\n"
+                    "program prefix: %s" % (name, n - 1, scen[0].get("id"), scen[0].get("class"), len(cases), describe(prefix)))
+            ctx.violation(sig, text, {"module": TRACE, "invariant": name, "at_event": n, "cfg": scen[0]["cfg"],
+                                      "prog": program_of(scen), "observed": prefix[-1].get("state") if n > 1 else None})
     ctx.add_tlc(r)
     ctx.cov["traces_validated_against_impl"] += len(spans)
     ctx.cov["trace_events_validated"] += len(events) - len(spans)
-    ctx.stage("validate-" + label, scenarios=len(spans), events=len(events), property_violations=nviol, drift=len(drifts), wall=round(r.wall, 1))
+    ctx.stage("validate-" + label, scenarios=len(spans), events=len(events), property_violations=nviol,
+              signatures={k: len(v) for k, v in viol.items()}, drift=len(drifts), wall=round(r.wall, 1))
     if drifts:
         raise vlib.Infra("specification drift (model of Stmt.tla and real code disagree) in %d scenario(s); first:\n%s" % (len(drifts), drifts[0]))
     return nviol
@@ -305,25 +365,25 @@ def validate(ctx, trace_path, prefixes, label, timeout=3000, heap="8g", max_repo
 # the stage
 # ------------------------------------------------------------------------------------------------
 RULE = ("programs = (a) every transition of the exhaustive TLC state graph of spec/Stmt.tla over the listed scenarios/bounds, "
-        "each as a labelled path from Init (maximal paths; quick tier: a seeded sample when there are more than the cap), and "
-        "(b) seeded random well-formed programs from harness/cmd/stmt (nested checkpoints, rollback, unevict, evict-then-pipeline "
-        "of the same pod incl. to another GPU, convert, several statements per session, commit with injected Bind/Evict failures); "
-        "every program runs on a real Statement of a fresh real Session; non-trivial = the program contains a Rollback, Discard "
-        "or Commit; distinct by (scenario, operation sequence)")
+        "each as a labelled path from Init (maximal paths; a seeded sample when there are more than the tier's cap), and "
+        "(b) seeded random well-formed programs from harness/cmd/stmt on random clusters (nested checkpoints, rollback, unevict, "
+        "evict-then-pipeline of the same pod incl. to another GPU / node, convert, several statements per session, commit with "
+        "injected Bind/Evict failures); every program runs on a real Statement of a fresh real Session; non-trivial = the program "
+        "contains a Rollback, Discard or Commit; distinct by (scenario, operation sequence)")
 
 ASSUMPTIONS = [
     "GPU groups of a Pending pod are a caller scratch field (gpu_sharing assigns them before Allocate/Pipeline and nothing restores them): normalised to empty in the C13 comparison",
     "zero-valued entries of the per-GPU-group maps are equal to absent entries (group ids are fresh UUIDs in production)",
     "sessions come from the real snapshot of a real SchedulerCache on fake clientsets; only Session.Cache is wrapped (recording, failure injection); resource claims / storage are not part of the scenarios",
-    "Stmt.tla models the intended behaviour for findings F14 (restore node entry when un-pipelining a GPU move) and F15 (failed Cache.Evict undoes the pod's operations); other oddities of statement.go are transcribed as they are",
+    "Stmt.tla models the intended behaviour for findings F14, F15, F21, F22; other oddities of statement.go are transcribed as they are",
     "well-formed programs are those the actions can issue: Evict on Running pods, Allocate on Pending pods that fit idle resources, Pipeline on Pending or virtually evicted pods that fit idle+releasing resources, Convert on allocate-shaped statements, Rollback only to logged checkpoints",
     "TLC, CommunityModules Json and the harness projection (floats -> milli-units) are trusted",
 ]
 
 
-def count_cases(ctx, trace_path, sample_every=997):
-    n = 0
+def count_cases(ctx, trace_path, sample_every=499):
     events = vlib.read_ndjson(trace_path)
+    n = 0
     for (s, e) in vlib.scenario_index(events):
         scen = events[s - 1:e]
         prog = program_of(scen)
@@ -331,29 +391,30 @@ def count_cases(ctx, trace_path, sample_every=997):
         ctx.count_case([scen[0]["cfg"], prog], nontrivial)
         n += 1
         if nontrivial and n % sample_every == 1:
+            last = [x for x in scen if "state" in x][-1]
             ctx.sample({"program": describe(scen, 30), "class": scen[0].get("class"),
-                        "final_pod_statuses_from_real_code": {p: v["st"] for p, v in scen[-1].get("state", scen[0]["state"])["pods"].items()}
-                        if "state" in scen[-1] else None})
+                        "final_pod_statuses_from_real_code": {p: v["st"] for p, v in last["state"]["pods"].items()}})
+
+
+def plans_for(ctx):
+    if ctx.quick:
+        return ([("A", SCN_WHOLE, dict(MaxOps=4, MaxFail=1, MaxStmts=1), 1000),
+                 ("B", SCN_FRAC, dict(MaxOps=4, MaxFail=1, MaxStmts=1), 1500)], 160, 50)
+    return ([("A", SCN_WHOLE, dict(MaxOps=6, MaxFail=1, MaxStmts=1), 12000),
+             ("A2", SCN_WHOLE, dict(MaxOps=3, MaxFail=2, MaxStmts=2), 12000),
+             ("B", SCN_FRAC, dict(MaxOps=5, MaxFail=1, MaxStmts=1), 12000),
+             ("C", SCN_SHARE, dict(MaxOps=4, MaxFail=1, MaxStmts=1), 12000)], 3000, 120)
 
 
 def run_stage(ctx, prefixes):
     """C13 and/or C14 (workload/queue part) judged on statement-level traces of the real code."""
-    import random
     binary = vlib.go_build("stmt")
     ctx.cov["rule"] = RULE
     for a in ASSUMPTIONS:
         if a not in ctx.assumptions:
             ctx.assumptions.append(a)
     rnd = random.Random(ctx.seed)
-    if ctx.quick:
-        plans = [("A", SCN_WHOLE, dict(MaxOps=4, MaxFail=1, MaxStmts=1), 1000),
-                 ("B", SCN_FRAC, dict(MaxOps=4, MaxFail=1, MaxStmts=1), 1500)]
-        nrandom, rlen = 160, 50
-    else:
-        plans = [("A", SCN_WHOLE, dict(MaxOps=6, MaxFail=1, MaxStmts=1), 60000),
-                 ("A2", SCN_WHOLE, dict(MaxOps=3, MaxFail=2, MaxStmts=2), 60000),
-                 ("B", SCN_FRAC, dict(MaxOps=5, MaxFail=1, MaxStmts=1), 60000)]
-        nrandom, rlen = 6000, 120
+    plans, nrandom, rlen = plans_for(ctx)
     traces = []
     for name, scn, bounds, cap in plans:
         model_check(ctx, name, scn, bounds, prefixes)
@@ -366,14 +427,14 @@ def run_stage(ctx, prefixes):
     p = vlib.run_harness(binary, ["-random", str(nrandom), "-seed", str(ctx.seed), "-len", str(rlen), "-out", rt])
     ctx.stage("random-programs", out=p.stdout.strip())
     traces.append(rt)
-    # one TLC run per batch of traces (JVM start and JSON parsing are paid once)
+    # one TLC run per batch of traces (JVM start and JSON parsing are paid once per batch)
     batch, size, k = [], 0, 0
     for t in traces + [None]:
         if t is not None and os.path.getsize(t) > 0:
             count_cases(ctx, t)
             batch.append(t)
             size += os.path.getsize(t)
-        if batch and (t is None or size > 300e6):
+        if batch and (t is None or size > 250e6):
             allp = os.path.join(ctx.scratch, "trace-all-%d.ndjson" % k)
             with open(allp, "w") as out:
                 for b in batch:
@@ -383,3 +444,18 @@ def run_stage(ctx, prefixes):
             validate(ctx, allp, prefixes, "batch%d" % k)
             batch, size, k = [], 0, k + 1
     ctx.cov["exhaustive"] = False
+
+
+def replay_one(ctx, obj, prefixes):
+    """re-run one recorded program on the current tree and re-validate it."""
+    binary = vlib.go_build("stmt")
+    rep = obj["replay"]
+    cfgp = os.path.join(ctx.scratch, "cfg.json")
+    with open(cfgp, "w") as f:
+        json.dump(rep["cfg"], f)
+    progp = os.path.join(ctx.scratch, "prog.ndjson")
+    with open(progp, "w") as f:
+        f.write(json.dumps({"id": "replay", "class": "replay", "prog": rep["prog"]}) + "\n")
+    trace = os.path.join(ctx.scratch, "trace.ndjson")
+    vlib.run_harness(binary, ["-cfg", cfgp, "-in", progp, "-out", trace])
+    validate(ctx, trace, prefixes, "replay")
